@@ -108,11 +108,11 @@ theorem cellSpec_lvl_le (cfg : Cfg) (info data : Nat) (old : Cell) (b ei ed : Na
     exact h.1.1.1.1.2
   · exact Nat.le_refl _
 
-theorem getD_set_ne (t : Text) (i j : Nat) (c : Cell) (h : i ≠ j) :
+theorem text_getD_set_ne (t : Text) (i j : Nat) (c : Cell) (h : i ≠ j) :
     (t.set i c).getD j blank = t.getD j blank := by
   simp [List.getD_eq_getElem?_getD, h]
 
-theorem getD_set_eq (t : Text) (i : Nat) (c : Cell) (h : i < t.length) :
+theorem text_getD_set_eq (t : Text) (i : Nat) (c : Cell) (h : i < t.length) :
     (t.set i c).getD i blank = c := by
   simp [List.getD_eq_getElem?_getD, h]
 
@@ -142,7 +142,7 @@ theorem parserUpdate_cellSpec (cfg : Cfg) (set : Settings) (t : Text) (id : Text
     simp only []
     rw [updateSingle_cellSpec cfg _ _ eb ex (pos + 1) _ _ _ (by simp; omega) hg.1 hg.2,
       updateSingle_cellSpec cfg t _ eb ex pos _ _ _ (by omega) hg.1 hg.2]
-    rw [getD_set_ne _ _ _ _ (by omega)]
+    rw [text_getD_set_ne _ _ _ _ (by omega)]
   · rw [cellSpec_gate_reject _ _ _ _ _ _ _ _ hg, cellSpec_gate_reject _ _ _ _ _ _ _ _ hg,
       set_getD_self]
     have : t.set (pos + 1) (t.getD (pos + 1) blank) = t := set_getD_self t (pos + 1)
@@ -164,11 +164,11 @@ theorem parserUpdate_getD (cfg : Cfg) (set : Settings) (t : Text) (id : TextId) 
   rw [parserUpdate_cellSpec _ _ _ _ _ _ _ _ hp]
   by_cases h1 : i = pos
   · subst h1
-    rw [if_pos rfl, getD_set_ne _ _ _ _ (by omega), getD_set_eq _ _ _ (by omega)]
+    rw [if_pos rfl, text_getD_set_ne _ _ _ _ (by omega), text_getD_set_eq _ _ _ (by omega)]
   · rw [if_neg h1]
     by_cases h2 : i = pos + 1
     · subst h2
-      rw [if_pos rfl, getD_set_eq _ _ _ (by simp; omega)]
-    · rw [if_neg h2, getD_set_ne _ _ _ _ (fun h => h2 h.symm), getD_set_ne _ _ _ _ (fun h => h1 h.symm)]
+      rw [if_pos rfl, text_getD_set_eq _ _ _ (by simp; omega)]
+    · rw [if_neg h2, text_getD_set_ne _ _ _ _ (fun h => h2 h.symm), text_getD_set_ne _ _ _ _ (fun h => h1 h.symm)]
 
 end RDS
